@@ -4,6 +4,7 @@ package volumes
 
 import (
 	"fmt"
+	"sort"
 	"strconv"
 	"strings"
 	"testing"
@@ -318,7 +319,9 @@ func genData(t *testing.T, tr *vhlib.Trace, r *vhlib.Rand, n int, defects bool) 
 		noteAck(res, k)
 	}
 	sync := func() {
-		w.doSync()
+		if w.doSync() != "ok" {
+			return // nothing counts as synced when Sync failed
+		}
 		for k := range acked {
 			acked[k] = true
 		}
@@ -439,6 +442,64 @@ func genData(t *testing.T, tr *vhlib.Trace, r *vhlib.Rand, n int, defects bool) 
 				} else {
 					// answered at once: already stored
 					acked[k] = false
+				}
+			}
+		case x < 95:
+			// an RPC uploads a few sectors (possibly into several volumes); the fsync of one dirty volume
+			// fails, the RPC fails; the renter retries the same uploads, Sync, commit; power loss
+			if len(w.writers) == 0 {
+				var batch []int
+				for j := 0; j < 2+r.Intn(3); j++ {
+					batch = append(batch, r.Intn(nroots+4))
+				}
+				// spread the uploads: the operator sets the volume just written to read-only for a while
+				var roVols []int64
+				for _, k := range batch {
+					write(k)
+					w.ws.mu.Lock()
+					loc := w.ws.lastLoc
+					w.ws.mu.Unlock()
+					if loc != nil && r.Chance(1, 2) {
+						w.doVmSetRO(loc.Volume, true)
+						roVols = append(roVols, loc.Volume)
+					}
+				}
+				for _, v := range roVols {
+					w.doVmSetRO(v, false)
+				}
+				var dirtyVols []int64
+				seen := map[uint64]bool{}
+				for k := range w.unsynced() {
+					if !seen[k[0]] {
+						seen[k[0]] = true
+						dirtyVols = append(dirtyVols, int64(k[0]))
+					}
+				}
+				sort.Slice(dirtyVols, func(i, j int) bool { return dirtyVols[i] < dirtyVols[j] })
+				if len(dirtyVols) > 0 {
+					fv := dirtyVols[r.Intn(len(dirtyVols))]
+					w.doSyncFail(fv, vhlib.Pick(r, "once", "once", "once", "sticky"))
+					sync()
+					if r.Chance(1, 3) {
+						sync() // a second attempt while the failure may still be there
+					}
+					w.doSyncFail(fv, "off")
+				}
+				for _, k := range batch {
+					write(k)
+				}
+				sync()
+				for _, k := range batch {
+					if s, ok := acked[k]; ok && s {
+						commit(k)
+					}
+				}
+				if r.Chance(1, 2) && len(ackedList(false)) == len(ackedList(true)) {
+					w.doCrash(1000, r.Uint64()%1000)
+					acked = map[int]bool{}
+				}
+				for _, k := range batch {
+					w.doRead(k)
 				}
 			}
 		default:
@@ -722,6 +783,8 @@ func replay(t *testing.T, tr *vhlib.Trace, ops []vhlib.ParsedLine) {
 			w.doMutate(op.Int("b"), op.Int("to"))
 		case "sync":
 			w.doSync()
+		case "syncfail":
+			w.doSyncFail(v, op.Args["mode"])
 		case "syncrace":
 			w.doSyncRace(v, op.Int("r"), op.Int("tries"))
 		case "resizepark":
